@@ -38,6 +38,10 @@ def mode_params(md, h):
         return m, 0.0, 0.0
     if reg in ("rbd", "slow"):
         return m, 2.0 * md["C"] * m, 0.0
+    if "k_exact" in md:            # stiffness given to the bit (threshold cases); md["wh"] is then only descriptive
+        k = md["k_exact"]
+        w = float(np.sqrt(k / m))
+        return m, 2.0 * md["zeta"] * w * m, k
     w = md["wh"] / h
     return m, 2.0 * md["zeta"] * w * m, m * w * w
 
@@ -545,6 +549,44 @@ def enum_rbd(shard, nshards, tier):
                         k += 1
 
 
+def enum_rb_threshold(shard, nshards, tier):
+    """the documented automatic rigid-body rule is strict: rb = nonzero(abs(k) < 0.005).  A mode whose stiffness is
+    0.005 exactly (or one ulp above) is elastic; uncoupled systems, rb not given, every mass form, order, kind of
+    initial condition, alone or next to a true rigid-body mode and an elastic mode"""
+    k = 0
+    for kx in (0.005, float(np.nextafter(0.005, 1.0))):
+        for h in (1.0, 0.5):
+            for zeta in (0.0, 0.05):
+                for order in (0, 1):
+                    for ic in ("zero", "random", "static"):
+                        for extra in (False, True):
+                            for mform in ("none", "vec", "mat"):
+                                md = {"reg": "under", "m": 1.0, "zeta": zeta, "k_exact": kx,
+                                      "wh": float(np.sqrt(kx)) * h}
+                                modes = [md]
+                                if extra:
+                                    modes = [{"reg": "rb", "m": 1.0}, md,
+                                             {"reg": "under", "m": 1.0, "wh": 0.8, "zeta": 0.02}]
+                                case = {"form": "diag", "h": h, "modes": [dict(x) for x in modes], "nt": 40,
+                                        "order": order, "seed": 7000 + k, "mform": mform, "rb_given": False,
+                                        "perm": False, "bvec": bool(k % 2), "kvec": bool((k // 2) % 2),
+                                        "pre_eig": False, "ic": ic, "fscale": 1.0, "icscale": 1.0, "f0zero": False,
+                                        "cpl": 0.05, "physnonprop": False, "fpack": "same", "reuse": False,
+                                        "ppack": "list"}
+                                if k % nshards == shard:
+                                    yield case
+                                k += 1
+
+
+@st.composite
+def long_cases(draw, form):
+    """histories longer than any plausible internal block (4096 / 8192 steps)"""
+    c = draw(cases(form))
+    c.update(nt=draw(st.sampled_from([4097, 5000, 8193, 12289])), reuse=False)
+    c["modes"] = c["modes"][:3]
+    return c
+
+
 def enum_nt(shard, nshards, tier):
     """every history length 2..24 x order x the three model forms (physical with and without the modal
     pre-transformation) x rb / rf present: nothing may depend on the number of samples"""
@@ -698,8 +740,11 @@ def first_order_cases(draw):
 PARTS = [
     Part("rbd_grid", oracle, enum=enum_rbd, quick=(4, None), thorough=(4, None), exhaustive=True),
     Part("nt_grid", oracle, enum=enum_nt, quick=(4, None), thorough=(4, None), exhaustive=True),
+    Part("rb_threshold_grid", oracle, enum=enum_rb_threshold, quick=(4, None), thorough=(4, None), exhaustive=True),
     Part("diag", oracle, strategy=lambda: cases("diag"), quick=(8, 120), thorough=(16, 2500)),
     Part("nonprop", oracle, strategy=lambda: cases("nonprop"), quick=(8, 80), thorough=(16, 1000)),
     Part("physical", oracle, strategy=lambda: cases("physical"), quick=(8, 80), thorough=(16, 1000)),
+    Part("long_diag", oracle, strategy=lambda: long_cases("diag"), quick=(4, 6), thorough=(8, 30)),
+    Part("long_nonprop", oracle, strategy=lambda: long_cases("nonprop"), quick=(4, 6), thorough=(8, 30)),
     Part("first_order", oracle_first_order, strategy=first_order_cases, quick=(4, 100), thorough=(16, 1500)),
 ]
